@@ -8,17 +8,17 @@ import Neutrino.Lemmas.TransNtfn
 namespace Neutrino.BM
 open Neutrino.Gen.TransNtfn Neutrino.GoInt
 
-/-- **The backlog the code computes is the model's**, for every state, every requested height below
-2^32 - 1 (the code adds 1 on `uint32`), every header contents `hdr`, constructor `newConn` and interface
+/-- **The backlog the code computes is the model's**, for every state with a filter tip below
+2^32 - 1 (the code counts on `uint32`: `height + 1`, `i <= bestHeight`), every requested height, every header contents `hdr`, constructor `newConn` and interface
 conversion `box`; the store is asked by height and answers from the committed log (`fetchOf`). -/
 theorem C19_trans_NotificationsSinceHeight (s : State) (h : Nat) (hdr : Nat → T_wire_BlockHeader)
     (newConn : T_wire_BlockHeader → Nat → Option T_blockntfns_Connected)
-    (box : Option T_blockntfns_Connected → Atom) (hh : h + 1 < 2 ^ 32) :
+    (box : Option T_blockntfns_Connected → Atom) (hb : s.ftip.height + 1 < 2 ^ 32) :
     NotificationsSinceHeight h s.ftip.height (fetchOf s.log hdr) newConn box
       = match (backlog s h).res with
         | .err => ([], 0, true)
         | .ok => ((backlog s h).bl.map (fun nd => box (newConn (hdr nd.id) nd.height)), (backlog s h).best, false) :=
-  trans_notificationsSinceHeight s h hdr newConn box hh
+  trans_notificationsSinceHeight s h hdr newConn box hb
 
 /-- the heights asked of the store are `h+1 … tip`, ascending, one event each -/
 theorem C19_trans_backlog_range (log : List Nat) (hdr : Nat → T_wire_BlockHeader)
